@@ -68,6 +68,8 @@ enum Choice {
     FnRead,
     AllowedRead,
     AllowedEmpty,
+    /// an allowed-tools list that names hosted tools only: schema-valid, and no function is allowed
+    AllowedHostedOnly,
 }
 
 fn choice_param(c: &Choice) -> ToolChoiceParam {
@@ -79,13 +81,14 @@ fn choice_param(c: &Choice) -> ToolChoiceParam {
         Choice::FnRead => ToolChoiceParam::specific_function("read"),
         Choice::AllowedRead => ToolChoiceParam::allowed_tools(vec![SpecificToolChoiceParam::function("read")]),
         Choice::AllowedEmpty => ToolChoiceParam::allowed_tools(vec![]),
+        Choice::AllowedHostedOnly => ToolChoiceParam::allowed_tools(vec![SpecificToolChoiceParam::file_search(), SpecificToolChoiceParam::mcp("docs")]),
     }
 }
 
 fn allowed(c: &Choice, tool: &str) -> bool {
     match c {
         Choice::Auto | Choice::Required => true,
-        Choice::NoneMode | Choice::AllowedEmpty => false,
+        Choice::NoneMode | Choice::AllowedEmpty | Choice::AllowedHostedOnly => false,
         Choice::FnWrite => tool == "write",
         Choice::FnRead | Choice::AllowedRead => tool == "read",
     }
@@ -432,6 +435,46 @@ fn run_case(report: &Report, rt: &Arc<tokio::runtime::Runtime>, provider: &Provi
     provider.forget(key);
 }
 
+/// A response that carries completed calls but NO response id (nothing names the response the
+/// follow-up would continue): whatever the loop does then, a call that was EXECUTED is answered -
+/// the provider receives a follow-up request holding its output - and one that is not answered
+/// was not executed.
+fn run_no_response_id(report: &Report, rt: &Arc<tokio::runtime::Runtime>, provider: &Provider, key: &str, stateless: bool, choice: &Choice, calls: usize) {
+    let mut evs: Vec<Value> = Vec::new();
+    for k in 0..calls {
+        evs.push(json!({"type": "response.output_item.done", "output_index": k, "item": {"type": "function_call", "id": format!("fc_{k}"), "call_id": format!("call_n{k}"), "name": "write", "arguments": json!({"path": "out.txt", "content": format!("<N{k}>"), "append": true}).to_string()}}));
+    }
+    evs.push(Value::String("[DONE]".into()));
+    provider.script(
+        key,
+        vec![Resp::Sse { chunks: vec![sse(&evs)], abort: false }, Resp::Sse { chunks: vec![sse(&[json!({"type": "response.completed", "response": {"id": "resp_2"}}), Value::String("[DONE]".into())])], abort: false }],
+        false,
+    );
+    let mut cfg = config(provider.endpoint(key));
+    cfg.stateless_history = stateless;
+    cfg.tool_choice = choice_param(choice);
+    let app = App::new(rt.clone(), Some(cfg));
+    let thread = app.ensure_thread();
+    let _ = app.post_and_wait(&thread, "go", None, Duration::from_secs(30));
+    report.eval(Some(&("no_response_id", stateless, choice, calls)));
+    report.count("runs_without_a_response_id", 1);
+    let out = std::fs::read_to_string(app.root.join("out.txt")).unwrap_or_default();
+    let received = provider.received(key);
+    let answered: Vec<String> = received.iter().skip(1).flat_map(outputs_in).collect();
+    let case = json!({"engine": "P", "harness": "c16.no_response_id", "stateless_history": stateless, "tool_choice": format!("{choice:?}"), "calls": calls});
+    for k in 0..calls {
+        let executed = out.matches(&format!("<N{k}>")).count();
+        let answers = answered.iter().filter(|c| **c == format!("call_n{k}")).count();
+        if executed > 1 || answers > 1 || (executed == 1 && answers == 0) {
+            report.violation("C16:executed_call_not_answered_once", case.clone(), &format!("a response without a response id: call_n{k} was executed {executed} time(s) and answered {answers} time(s) ({} requests received)", received.len()));
+        }
+        if !allowed(choice, "write") && executed > 0 {
+            report.violation("C16:barred_tool_executed:no_response_id", case.clone(), &format!("write is barred by tool_choice {choice:?} and ran"));
+        }
+    }
+    provider.forget(key);
+}
+
 fn run_endless(report: &Report, rt: &Arc<tokio::runtime::Runtime>, provider: &Provider, key: &str, stateless: bool, choice: &Choice) {
     let call = json!({"type": "response.output_item.done", "output_index": 0, "item": {"type": "function_call", "id": "fc", "call_id": "call_x", "name": "write", "arguments": json!({"path": "out.txt", "content": "<E>", "append": true}).to_string()}});
     provider.script(key, vec![Resp::Sse { chunks: vec![sse(&[json!({"type": "response.completed", "response": {"id": "r"}}), call, Value::String("[DONE]".into())])], abort: false }], true);
@@ -642,7 +685,7 @@ pub fn run(opts: Opts) -> i32 {
                 return;
             }
             let choices: Vec<Choice> = if s.items.len() <= 1 || tier == Tier::Thorough {
-                vec![Choice::Auto, Choice::NoneMode, Choice::Required, Choice::FnWrite, Choice::FnRead, Choice::AllowedRead, Choice::AllowedEmpty]
+                vec![Choice::Auto, Choice::NoneMode, Choice::Required, Choice::FnWrite, Choice::FnRead, Choice::AllowedRead, Choice::AllowedEmpty, Choice::AllowedHostedOnly]
             } else {
                 vec![Choice::Auto, Choice::NoneMode, Choice::FnRead]
             };
@@ -660,6 +703,14 @@ pub fn run(opts: Opts) -> i32 {
             for c in [Choice::Auto, Choice::NoneMode, Choice::FnRead] {
                 let n = counter.fetch_add(1, std::sync::atomic::Ordering::SeqCst);
                 run_endless(&report, &rt, &provider, &format!("c16e-{n}/v1/responses"), stateless, &c);
+            }
+        }
+        for stateless in [false, true] {
+            for c in [Choice::Auto, Choice::Required, Choice::FnWrite, Choice::NoneMode] {
+                for calls in [1usize, 2] {
+                    let n = counter.fetch_add(1, std::sync::atomic::Ordering::SeqCst);
+                    run_no_response_id(&report, &rt, &provider, &format!("c16r-{n}/v1/responses"), stateless, &c, calls);
+                }
             }
         }
         odd_identifier_sweep(&report, &rt, &provider);
